@@ -54,11 +54,13 @@ def neighbor_answers(w, keys):
     return out
 
 
-def traversal_answers(w, universes=(None,), trav_kw=None):
+TRAV_KW = dict(direction_sensitive=helpers.DIR_SENS_FORWARD, unknown_handling=helpers.LNK_UNKNOWN_NEIGHBOR)
+
+
+def traversal_answers(w, universes=(None,), trav_kw=None, first_index=0):
     out = {}
-    kw = trav_kw or dict(direction_sensitive=helpers.DIR_SENS_FORWARD,
-                         unknown_handling=helpers.LNK_UNKNOWN_NEIGHBOR)
-    for un, uni in enumerate(universes):
+    kw = trav_kw or TRAV_KW
+    for un, uni in enumerate(universes, first_index):
         for i, v in enumerate(w.v):
             if uni is not None and not any(v is m for m in uni.vertices):
                 continue
@@ -89,12 +91,19 @@ def differential(w, keys, universes_fn=None, fresh=None):
     Returns list of keys whose answers differ: [(key, with_flag_as_is, with_flag_off)].
     """
     c = fresh() if fresh is not None else copy.deepcopy(w)
-    unis = (None,) + tuple(universes_fn(c) if universes_fn else ())
-    Vertex.NEIGHBOR_CACHING = False
-    plain = full_answers(c, keys, unis)
-    Vertex.NEIGHBOR_CACHING = bool(c.flag)
     try:
-        cached = full_answers(c, keys, unis)
+        # first everything that needs no universe: building a universe for the battery is itself a
+        # membership change of the vertices, and must not come before these questions
+        Vertex.NEIGHBOR_CACHING = False
+        plain = full_answers(c, keys, (None,))
+        Vertex.NEIGHBOR_CACHING = bool(c.flag)
+        cached = full_answers(c, keys, (None,))
+        unis = tuple(universes_fn(c) if universes_fn else ())
+        if unis:
+            Vertex.NEIGHBOR_CACHING = False
+            plain.update(traversal_answers(c, unis, first_index=1))
+            Vertex.NEIGHBOR_CACHING = bool(c.flag)
+            cached.update(traversal_answers(c, unis, first_index=1))
     finally:
         Vertex.NEIGHBOR_CACHING = bool(w.flag)
     return [(k, cached[k], plain[k]) for k in plain if cached[k] != plain[k]]
